@@ -4,6 +4,7 @@ CONSTANTS
   NWrites = 0
   NReads = 0
   SizedOutsideLock = TRUE
+  ShutdownInline = FALSE
   ClientGuarded = FALSE
   Part = "informer"
 INVARIANTS NoNilUse
